@@ -1409,6 +1409,28 @@ Proof.
   eapply L_drain; eauto; lia.
 Qed.
 
+(* execute_single_queued_event: exactly the oldest stored occurrence, as one complete step; the rest stays *)
+Theorem back_drain1_q : forall mc, core mc -> forall e evs fuel rn,
+  quiet (e :: evs) mc rn -> depth mc + 2 <= fuel -> e_ty e <> EV_NONE ->
+  sim val (co_drain (build cf parents false mc) fuel 1) rn
+      (fun _ rn' items => quiet evs mc rn' /\ items = o_items (sp_process pol mc e val (abs rn)) /\ abs rn' = o_conf (sp_process pol mc e val (abs rn))).
+Proof.
+  intros mc Hcore e evs fuel rn (Hok & Hp) Hfuel He. pose proof (kids_hch mc Hcore) as Hch.
+  rewrite build_back. cbn [back_ops co_drain]. change (Nat.eqb 1 0) with false. cbn iota. unfold drain_one.
+  eapply sim_bind; [apply (sim_get val rn (fun a rn1 i1 => a = rn /\ rn1 = rn /\ i1 = [])); auto|].
+  cbn beta. intros a rn1 i1 (-> & -> & ->).
+  assert (Hq : msgq rn = mkq e :: map mkq evs) by (destruct Hok as (Hq & _); exact Hq).
+  rewrite Hq. unfold mkq at 1.
+  eapply sim_bind; [apply (sim_put val (set_msgq rn (map mkq evs)) rn (fun _ rn1 i1 => rn1 = set_msgq rn (map mkq evs) /\ i1 = [])); auto|].
+  cbn beta. intros u1 rn1 i1 (-> & ->).
+  eapply sim_bind.
+  { eapply (L_pei_queued cf Hbe parents Hflat val false mc (kidsops mc) Hch Hcore (q:=map mkq evs) fuel e (set_msgq rn (map mkq evs)));
+      [eapply okL_set_msgq; exact Hok | destruct rn; exact Hp | exact Hfuel | exact He]. }
+  cbn beta. intros code rn2 i2 (Hok2 & Hp2 & Hi2 & Ha2). rewrite abs_set_msgq in Hi2, Ha2.
+  apply sim_ret. rewrite !app_nil_l, !app_nil_r. split; [split; assumption|].
+  rewrite sp_process_unfold_root. cbn zeta. cbn [o_conf o_items]. cbn [negb andb] in Hi2. auto.
+Qed.
+
 Theorem back_stop_q : forall mc, core mc -> forall evs fuel rn, quiet evs mc rn ->
   sim val (co_stop (build cf parents false mc) fuel) rn
       (fun _ rn' items => quiet evs mc rn' /\ (items, abs rn') = sp_stop mc (abs rn)).
